@@ -63,7 +63,7 @@ func c16QueryCharset(r *core.Rng, cs [3]uint16, alg byte) (*replication.Charset,
 }
 
 func c16CharsetPairs(c *core.Ctx) {
-	n := c.N(4000, 200000)
+	n := c.N(4000, 600000)
 	for i := 0; i < n; i++ {
 		if !c.Mine(i) {
 			continue
@@ -115,7 +115,7 @@ func c16CharsetPairs(c *core.Ctx) {
 // header-size table changing from file to file) are observed through the
 // streamer: multi-file histories, compared with the model including labels.
 func c16EndToEnd(c *core.Ctx) {
-	nh := c.N(60, 1200)
+	nh := c.N(60, 4000)
 	for idx := 0; idx < nh; idx++ {
 		if !c.Mine(idx) {
 			continue
